@@ -9,3 +9,4 @@ pub mod c06_model;
 pub mod usage;
 pub mod dynschema;
 pub mod dynschema_selfcheck;
+pub mod c01_core;
